@@ -44,6 +44,12 @@ RELEVANT = {
  "analyzer/symbol_access.rs": ["C05", "C20"],
  "analyzer/token_type.rs": ["C20"],
  "analyzer/value_type.rs": ["C06"],
+ # front ends (paths relative to abasic-core/src)
+ "../../abasic-cli/src/stdio_interpreter.rs": ["C15", "C08"],
+ "../../abasic-cli/src/stdio_printer.rs": ["C15"],
+ "../../abasic-cli/src/cli_args.rs": ["C15"],
+ "../../abasic-web/src/lib.rs": ["C19"],
+ "../../abasic-lsp/src/main.rs": ["C20"],
 }
 
 RULES = [
@@ -74,7 +80,7 @@ def setup():
     for f in [f"{VERIF}/harness/Cargo.toml"]:
         s = open(f).read().replace('"/repo/', f'"{REPO}/')
         open(f, "w").write(s)
-    s = open(f"{VERIF}/check").read().replace("cd /repo &&", f"cd {REPO} &&")
+    s = open(f"{VERIF}/check").read().replace("REPO_DIR=/repo", f"REPO_DIR={REPO}")
     open(f"{VERIF}/check", "w").write(s)
     # reuse build caches between mutants
     rc, out = sh("cargo build --release --offline", cwd=f"{VERIF}/harness", timeout=1800)
@@ -107,15 +113,18 @@ def candidates():
     return out
 
 def main():
-    mx = 120; start = 0; scale = "0.3"
+    mx = 120; start = 0; scale = "0.3"; only = None
     a = sys.argv[1:]
     while a:
         k = a.pop(0)
         if k == "--max": mx = int(a.pop(0))
         elif k == "--start": start = int(a.pop(0))
         elif k == "--scale": scale = a.pop(0)
+        elif k == "--only": only = a.pop(0)
     setup()
     cands = candidates()
+    if only:
+        cands = [c for c in cands if only in c[0]]
     # deterministic spread over files: order by hash
     cands.sort(key=lambda c: hashlib.sha1(f"{c[0]}{c[1]}{c[4]}".encode()).hexdigest())
     print(len(cands), "candidate mutants; running", mx, "from", start, flush=True)
@@ -130,7 +139,7 @@ def main():
         open(path, "w").write("\n".join(lines))
         rec = {"file": rel, "line": i + 1, "what": what, "old": old.strip(), "new": new.strip()}
         try:
-            rc, out = sh("cargo build -p abasic-core --features verif-hooks --offline", cwd=REPO, timeout=300)
+            rc, out = sh("cargo build -p abasic-core --features verif-hooks --offline" if not rel.startswith("..") else "cargo build --workspace --offline", cwd=REPO, timeout=300)
             if rc != 0:
                 rec["result"] = "does-not-compile"
                 continue
